@@ -692,7 +692,13 @@ def run(prog, rep, tier, repo):
             c = a[2]
             while tag(c) == 'cast':
                 c = c[2]
-            ok = tag(r) == 'const' and r[2] == 1 and tag(c) == 'len' and _strip_owned(a[0]) == ('arg', 1, tm.names.get(1))
+            me_tm = ('arg', 1, tm.names.get(1))
+            data_tm = _strip_owned(a[0])
+            # the data is the vector itself or its only field (`let Vector { v } = self`), the width the length of either
+            is_self = data_tm == me_tm or (tag(data_tm) == 'field' and data_tm[1] == me_tm and data_tm[2] == 0)
+            len_of = _strip_owned(c[1]) if tag(c) == 'len' else None
+            ok = tag(r) == 'const' and r[2] == 1 and is_self and len_of is not None and \
+                (len_of == me_tm or (tag(len_of) == 'field' and len_of[1] == me_tm and len_of[2] == 0))
         if ok:
             rep.ok('promotion', key, 'to_matrix = Matrix::new(self, 1, len)')
         else:
